@@ -178,7 +178,7 @@ int main(int argc, char **argv) {
     return st.violations.empty() ? 0 : 3;
   }
   part_checker(a); part_builder(a); part_keyring(a);
-  uint64_t n = a.thorough() ? 20000 : 1200;
+  uint64_t n = a.thorough() ? 100000 : 1200;
   std::string params = "seed=" + std::to_string(a.seed * 1000 + a.worker) + " max_success=" + std::to_string(n) + " max_size=100";
   setenv("RC_PARAMS", params.c_str(), 1);
   std::string lastwhy, lastcase;
